@@ -1,1 +1,19 @@
-pub fn main(_args: &[String]) -> i32 { eprintln!("not implemented yet"); 2 }
+//! Runs the REAL build-script driver in the current working directory:
+//! tauri_typegen::BuildSystem::generate_at_build_time().  Exit 0 = Ok, 1 = Err, 101 = panic.
+pub fn main(_args: &[String]) -> i32 {
+    let r = std::panic::catch_unwind(|| tauri_typegen::BuildSystem::generate_at_build_time());
+    match r {
+        Ok(Ok(())) => {
+            println!("BUILD-DRIVER ok");
+            0
+        }
+        Ok(Err(e)) => {
+            eprintln!("BUILD-DRIVER error: {}", e);
+            1
+        }
+        Err(_) => {
+            eprintln!("BUILD-DRIVER panic");
+            101
+        }
+    }
+}
